@@ -3,35 +3,45 @@
 Explicit-state model checking over the *process-global* state of the library.  A state is the
 call history that reaches it; ALL histories of length <= d over the call alphabet A (which
 contains the injected faults: undecodable bytes, raising / empty fetchers, missing files, a parser
-in raising mode) are enumerated, and every history is executed in full from `guard.pristine()`
-(never merged on the state vector G: state hidden outside G would be lost by merging).
+in raising mode) are enumerated, and every history is executed in full from `guard.pristine()`,
+in its own forked process.  Histories are never merged on the state vector G: state hidden outside
+G would be lost by merging; for the same reason the processes that enumerate and judge never
+execute library code themselves - every history starts in a fork of a process that has only
+imported the library, so nothing hidden *anywhere* can travel from one history to the next.
 
 Checked on every history h = c1 .. cn:
   C12.restore  around every *parse call* inside every ci: error mode, serializer (identity and
                preferences) and validation profiles are what they were when the parse call
                started, whether it returned or raised;
   C12.probe    (a) the observable outcome of every ci (result text or exception, plus the log
-               messages) equals the outcome of the same call in the pristine state - every call of
-               the alphabet is its own "later call"; (b) after cn the fixed probe battery gives
-               exactly the results recorded in the pristine state (and the parent verifies once
-               that a fresh subprocess gives the same battery results as `pristine()`);
+               messages) equals the outcome of the same call executed alone in a clean process -
+               every call of the alphabet is its own "later call"; (b) after cn the fixed probe
+               battery gives exactly the results recorded in a clean process (and the parent
+               verifies once that a fresh interpreter gives the same battery results);
   C12.reuse    after cn a parser object used n = 1..3 times on the same text gives the
-               pristine result every time.
+               clean-process result every time.
+"Explicitly set preferences" are part of what a result may depend on: one symbol of the alphabet
+sets serializer preferences and leaves them set; the expected results of everything after it are
+the recordings made in a clean process after exactly that call (a two-state reference model of the
+explicit settings).  All other symbols that change a setting put the old value back themselves.
 Because every prefix of a history is itself an enumerated history and execution is deterministic,
 "battery after cn for all h" is "battery after every call of every history", without the battery's
 own calls standing between ci and ci+1 (they could mask a leak by clearing the shared tokenizer).
 """
 import contextlib
+import gc
 import itertools
 import json
 import logging
 import os
+import pickle
+import random
 import re
 import shutil
 import subprocess
 import sys
 import tempfile
-import xml.dom
+import traceback
 
 import cssutils
 import cssutils.cssproductions
@@ -46,15 +56,18 @@ ID = 'C12'
 LEVEL = 'model_checking'
 RULE = (
     'all call histories of length 0..d over the call alphabet A (d = 2 quick, 3 thorough), each executed in full from the pristine '
-    'process state (no merging on the state vector). Per call: restore clause around every parse call inside it, own outcome compared '
-    'with the outcome recorded for the same call in the pristine state; per history: probe battery and parser-reuse results compared '
-    'with the pristine recordings (which the parent compares once with a fresh subprocess). A history is non-trivial if at least one of '
-    'its calls raised or logged, or the state vector G after it differs from the pristine G; histories are distinct by construction. '
+    'process state in its own forked process (no merging on the state vector). Per call: restore clause around every parse call inside it, '
+    'own outcome compared with the outcome of the same call alone in a clean process under the same explicit settings; per history: probe '
+    'battery and parser-reuse results compared with the clean-process recordings (which the parent compares once with a fresh interpreter). '
+    'A history is non-trivial if at least one of its calls raised or logged, or the state vector G after it differs from the G its explicit '
+    'settings account for; histories are distinct by construction. '
     'states = distinct G vectors observed after a call or at a marked point inside a call where an explicitly changed setting is in effect, transitions = calls executed, validated = probe batteries compared'
 )
 ASSUMPTIONS = [
     'what may legitimately influence a result is: the text, the arguments, explicitly set preferences / profiles / error mode; every symbol '
-    'of the alphabet that sets one of these explicitly puts the old value back itself before it ends, so any difference seen later is a leak',
+    'of the alphabet that sets one of these explicitly puts the old value back itself before it ends - except set-prefs(custom), whose effect '
+    'is modelled (expected results = recordings of a clean process after set-prefs(custom) alone) - so any other difference seen later is a leak',
+    'lazily compiled regular expressions of the library (util.LazyRegex) are compiled in the forking process: memoised immutable values',
     'a leaked component of G (e.g. tokens left in the push-back queue of the shared tokenizer) is a violation only when a later result or '
     'the restore clause shows it; harmless residue is counted (counter g_residue:<component>) but not reported',
     'serializer identity counts as part of "the serializer preferences" in the restore clause (the preferences live on that object)',
@@ -66,8 +79,8 @@ ASSUMPTIONS = [
 ]
 
 FLOORS = {
-    'quick': {'states': 6, 'transitions': 4000, 'validated': 2000, 'outcomes': 3, 'set:symbols_executed': 45, 'set:fault_types': 6, 'set:faults': 15},
-    'thorough': {'states': 6, 'transitions': 250000, 'validated': 90000, 'outcomes': 3, 'set:symbols_executed': 45, 'set:fault_types': 6, 'set:faults': 15},
+    'quick': {'states': 6, 'transitions': 4000, 'validated': 2000, 'outcomes': 3, 'set:symbols_executed': 46, 'set:fault_types': 6, 'set:faults': 15},
+    'thorough': {'states': 6, 'transitions': 250000, 'validated': 90000, 'outcomes': 3, 'set:symbols_executed': 46, 'set:fault_types': 6, 'set:faults': 15},
 }
 
 WD = 10  # seconds per library call
@@ -307,7 +320,8 @@ parse_sym('parseString(@import-and()', lambda cx: cssutils.parseString('@import 
 parse_sym('parseString(@media-and(){)', lambda cx: cssutils.parseString('@media screen and(){a{b:c}}'), "cssutils.parseString('@media screen and(){a{b:c}}')")
 parse_sym('parseStyle(value;)', lambda cx: cssutils.parseStyle('b:1;'), "cssutils.parseStyle('b:1;')")
 parse_sym('parseString(unterminated-fn)', lambda cx: cssutils.parseString('a{b:f(1'), "cssutils.parseString('a{b:f(1')")
-parse_sym('parseString(garbage)', lambda cx: cssutils.parseString('a{(x:y);color:red} $ }{ @x{'), "cssutils.parseString('a{(x:y);color:red} $ }{ @x{')")
+GARBAGE = 'a{color:red;top:1px !important x;left:0 ! !;b c:d;:e;f:;(x:y)} a,,b{} c>{} @page :x:y{} @namespace; @media{} @import; $ }{ @x{'
+parse_sym('parseString(garbage)', lambda cx: cssutils.parseString(GARBAGE), f'cssutils.parseString({GARBAGE!r})')
 # -- faults
 parse_sym('parseString(bytes-undecodable)', lambda cx: cssutils.parseString(UNDEC, encoding='ascii'), f"cssutils.parseString({UNDEC!r}, encoding='ascii')")
 parse_sym('parseStyle(bytes-undecodable)', lambda cx: cssutils.parseStyle(UNDEC, encoding='ascii'), f"cssutils.parseStyle({UNDEC!r}, encoding='ascii')")
@@ -446,8 +460,28 @@ def _prof2(cx):
         cssutils.profile.removeProfile('c12b')
 
 
+# -- an explicit, persistent setting: the application sets serializer preferences and leaves them set.  The expected results of
+#    everything that follows are the recordings made in a clean process after exactly this call (environment 'custom-prefs').
+@sym('set-prefs(custom)', "cssutils.ser.prefs.indent = '  '\ncssutils.ser.prefs.omitLastSemicolon = False\ncssutils.ser.prefs.keepComments = False")
+def _set_prefs(cx):
+    prefs = cssutils.ser.prefs
+    prefs.indent = '  '
+    prefs.omitLastSemicolon = False
+    prefs.keepComments = False
+
+
 NAMES = [n for n, _ in A]
 INDEX = {n: i for i, n in enumerate(NAMES)}
+ENVS = ('default', 'custom-prefs')
+SETTER_ENV = {INDEX['set-prefs(custom)']: 'custom-prefs'}  # symbol -> environment in effect after it (until the end of the history)
+ENV_PREFIX = {'default': [], 'custom-prefs': [INDEX['set-prefs(custom)']]}
+
+
+def env_after(hist):
+    e = 'default'
+    for si in hist:
+        e = SETTER_ENV.get(si, e)
+    return e
 assert len(INDEX) == len(A), 'symbol names must be unique'
 
 VFS_FILES = {
@@ -548,73 +582,74 @@ def fresh_subprocess():
 
 
 # ----------------------------------------------------------------------------------------
-# pristine recordings (per process, lazily)
+# process isolation: every history runs in a short-lived fork of a process that has only *imported* the library
 
 
-class Ref:
-    def __init__(self):
-        self.G0 = None
-        self.battery = None
-        self.reuse = None
-        self.calls = {}  # vfs-independent by normalisation
-        self.digest = None
+_WARM = False
 
 
-_REF = None
+def _warm():
+    """compile the library's lazily compiled regular expressions once in the forking process (memoised immutable values;
+    otherwise every child would pay for them again)"""
+    global _WARM
+    if not _WARM:
+        from cssutils.util import LazyRegex
+
+        for o in gc.get_objects():
+            if isinstance(o, LazyRegex):
+                o.ensure()
+        _WARM = True
 
 
-def _reset():
-    guard.pristine(profiles=True)
-
-
-def ref(vfs):
-    """recordings made right after pristine(): G0, battery, reuse results, the outcome of every alphabet call alone"""
-    global _REF, _VFS
-    _VFS = vfs
-    if _REF is not None:
-        return _REF
-    r = Ref()
-    _reset()
-    r.G0 = gvec()
-    r.battery = battery()
-    _reset()
-    r.reuse = reuse()
-    for i, (name, fn) in enumerate(A):
-        _reset()
-        cx = Cx(vfs)
-        r.calls[i] = _observe(lambda: fn(cx))
-    _reset()
-    r.digest = h64([r.G0, r.battery, r.reuse, [r.calls[i] for i in range(len(A))]])
-    _REF = r
-    return r
-
-
-# ----------------------------------------------------------------------------------------
-# executing one history
+def in_child(fn, *args):
+    """run fn(*args) in a forked child and return its (picklable) result.  The calling process never executes library
+    code itself, so state hidden anywhere in the library (not only in G) cannot travel from one history to the next."""
+    _warm()
+    r, w = os.pipe()
+    pid = os.fork()
+    if pid == 0:
+        try:
+            os.close(r)
+            try:
+                payload = pickle.dumps(('ok', fn(*args)))
+            except BaseException:
+                payload = pickle.dumps(('err', traceback.format_exc()[-1500:]))
+            with os.fdopen(w, 'wb') as f:
+                f.write(payload)
+        finally:
+            os._exit(0)
+    os.close(w)
+    with os.fdopen(r, 'rb') as f:
+        data = f.read()
+    os.waitpid(pid, 0)
+    if not data:
+        raise RuntimeError('child process died without an answer')
+    kind, val = pickle.loads(data)
+    if kind == 'err':
+        raise RuntimeError('child process: ' + val)
+    return val
 
 
 class Run:
     """everything observed while executing one history in full"""
 
     def __init__(self):
-        self.ok = True
+        self.g_start = None  # G right after pristine()
         self.outs = []  # outcome of each call
         self.restores = []  # per call: list of (label, before, after, how)
         self.gs = []  # G after each call
         self.marks = []  # G at the marked points inside the calls
         self.battery = None
         self.reuse = None
-        self.g_start_diff = []
 
 
-def execute(hist, vfs, R, with_battery=True):
+def _execute(hist, vfs, with_battery):
+    """(in a child) the history, in full, from pristine()"""
+    global _VFS
+    _VFS = vfs
     run = Run()
-    _reset()
-    g = gvec()
-    run.g_start_diff = _gdiff(R.G0, g)
-    if run.g_start_diff:
-        run.ok = False
-        return run
+    guard.pristine(profiles=True)
+    run.g_start = gvec()
     cx = Cx(vfs)
     for si in hist:
         name, fn = A[si]
@@ -629,8 +664,81 @@ def execute(hist, vfs, R, with_battery=True):
     return run
 
 
-def _minimise(hist, keep_last, pred, vfs, R):
-    """1-minimal sub-history (fixed order, deterministic) on which pred(Run) still holds; the last call is kept if keep_last"""
+def execute(hist, vfs, with_battery=True):
+    return in_child(_execute, list(hist), vfs, with_battery)
+
+
+# ----------------------------------------------------------------------------------------
+# recordings in the pristine state (once per run, by the parent, through clean children; workers read the file)
+
+
+class Ref:
+    """recordings made in clean processes, computed on demand (the parent fills all of them before the shards start)"""
+
+    def __init__(self, vfs):
+        self.vfs = vfs
+        self._env = {}  # env -> (G, battery, reuse) after the explicit settings of env alone
+        self._calls = {}  # (env, symbol index) -> outcome of that call alone under env
+        self._g0 = None
+
+    def _base(self, env):
+        if env not in self._env:
+            run = execute(ENV_PREFIX[env], self.vfs)
+            if self._g0 is None:
+                self._g0 = run.g_start
+            self._env[env] = (run.gs[-1] if run.gs else run.g_start, run.battery, run.reuse)
+        return self._env[env]
+
+    def g0(self):
+        """G after import + pristine()"""
+        self._base('default')
+        return self._g0
+
+    def g(self, env):
+        return self._base(env)[0]
+
+    def bat(self, env):
+        return self._base(env)[1]
+
+    def reu(self, env):
+        return self._base(env)[2]
+
+    def call(self, env, si):
+        if (env, si) not in self._calls:
+            self._calls[(env, si)] = execute(ENV_PREFIX[env] + [si], self.vfs, with_battery=False).outs[-1]
+        return self._calls[(env, si)]
+
+    def fill(self):
+        for env in ENVS:
+            self._base(env)
+            for si in range(len(A)):
+                self.call(env, si)
+        return self
+
+
+_REF_CACHE = {}
+
+
+def load_ref(vfs):
+    if vfs not in _REF_CACHE:
+        _REF_CACHE.clear()
+        with open(os.path.join(vfs, 'ref.pickle'), 'rb') as f:
+            _REF_CACHE[vfs] = pickle.load(f)
+    return _REF_CACHE[vfs]
+
+
+def save_ref(vfs, R):
+    with open(os.path.join(vfs, 'ref.pickle'), 'wb') as f:
+        pickle.dump(R, f)
+
+
+# ----------------------------------------------------------------------------------------
+# judging one history
+
+
+def _minimise(hist, keep_last, pred, vfs):
+    """1-minimal sub-history (fixed order, deterministic) on which pred(run, sub-history) still holds; the last call is kept
+    if keep_last.  One-step counterfactuals: a call stays only if removing it makes *this* violation disappear."""
     hist = list(hist)
     changed = True
     while changed:
@@ -638,8 +746,7 @@ def _minimise(hist, keep_last, pred, vfs, R):
         n = len(hist) - (1 if keep_last else 0)
         for i in range(n):
             h2 = hist[:i] + hist[i + 1:]
-            r2 = execute(h2, vfs, R)
-            if r2.ok and pred(r2, len(h2)):
+            if pred(execute(h2, vfs), h2):
                 hist = h2
                 changed = True
                 break
@@ -653,13 +760,22 @@ def _leak_sig(min_hist_names, leaked, probe):
     return f'after={after}|leaked=none-of-G|probe={probe}'
 
 
+def _leaked_after(hist, vfs, R):
+    """components of G that differ from what the explicit settings of `hist` account for, at the end of `hist`"""
+    if not hist:
+        return []
+    r = execute(hist, vfs, with_battery=False)
+    return _gdiff(R.g(env_after(hist)), r.gs[-1])
+
+
 def judge(res, hist, vfs, R, record_sample=False):
-    """execute one history and evaluate all clauses on it"""
-    run = execute(hist, vfs, R)
+    """execute one history (in a clean child) and evaluate all clauses on it"""
+    run = execute(hist, vfs)
     names = [NAMES[i] for i in hist]
     res.evaluations += 1
-    if not run.ok:
-        res.error(f'pristine() does not restore the state vector: {run.g_start_diff} differ before history {names}')
+    d0 = _gdiff(R.g0(), run.g_start)
+    if d0:
+        res.error(f'state vector after pristine() differs from the recording: {d0} (history {names})')
         return run
     nontrivial = False
     for g in run.marks:
@@ -667,9 +783,8 @@ def judge(res, hist, vfs, R, record_sample=False):
     for pos, si in enumerate(hist):
         res.transitions += 1
         out = run.outs[pos]
-        g = run.gs[pos]
         res.sets['symbols_executed'].add(NAMES[si])
-        res.sets['G'].add(h64(g))
+        res.sets['G'].add(h64(run.gs[pos]))
         if out[0] == 'exc':
             res.sets['faults'].add(f'{NAMES[si]}:{out[1]}')
             res.sets['fault_types'].add(out[1])
@@ -695,24 +810,22 @@ def judge(res, hist, vfs, R, record_sample=False):
                     {k: before[k] for k in changed}, {k: after[k] for k in changed},
                     note=f'parse call {label} {how}; value at the start of the call vs. after it',
                 )
-        # (ii a) the call's own outcome is the outcome it has in the pristine state
+        # (ii a) the call's own outcome is the outcome it has in a clean process under the same explicit settings
         res.clauses['C12.probe.call'] += 1
-        if out != R.calls[si]:
-            target = out
+        if out != R.call(env_after(hist[:pos]), si):
+            def pred(r2, h2, target=out, si=si):
+                return r2.outs[-1] == target and target != R.call(env_after(h2[:-1]), si)
 
-            def pred(r2, n2, target=target):
-                return r2.outs[n2 - 1] == target
-
-            mh = _minimise(hist[:pos + 1], True, pred, vfs, R)
-            r3 = execute(mh[:-1], vfs, R, with_battery=False)
-            leaked = _gdiff(R.G0, r3.gs[-1]) if r3.gs else []
+            mh = _minimise(hist[:pos + 1], True, pred, vfs)
             mn = [NAMES[i] for i in mh]
             res.violation(
-                'C12.probe', _leak_sig(mn[:-1], leaked, 'call:' + NAMES[si]), {'history': mn}, R.calls[si], out,
-                note=f'outcome of {NAMES[si]} differs from its outcome in the pristine state; first seen in history {names[:pos + 1]}',
+                'C12.probe', _leak_sig(mn[:-1], _leaked_after(mh[:-1], vfs, R), 'call:' + NAMES[si]), {'history': mn},
+                R.call(env_after(mh[:-1]), si), out,
+                note=f'outcome of {NAMES[si]} differs from its outcome in a clean process; first seen in history {names[:pos + 1]}',
             )
+    env = env_after(hist)
     if run.gs:
-        d = _gdiff(R.G0, run.gs[-1])
+        d = _gdiff(R.g(env), run.gs[-1])
         for k in d:
             res.counters['g_residue:' + k] += 1
         if d:
@@ -724,45 +837,41 @@ def judge(res, hist, vfs, R, record_sample=False):
     res.clauses['C12.probe.battery'] += 1
     res.outcomes.add(h64(run.battery))
     res.outcomes.add(h64(run.gs[-1]) if run.gs else 0)
-    diff = [name for name, _ in PROBES if run.battery[name] != R.battery[name]]
+    diff = [name for name, _ in PROBES if run.battery[name] != R.bat(env)[name]]
     if diff:
         first = diff[0]
         target = run.battery[first]
 
-        def pred_b(r2, n2):
-            return r2.battery[first] == target
+        def pred_b(r2, h2):
+            return r2.battery[first] == target and target != R.bat(env_after(h2))[first]
 
-        mh = _minimise(hist, False, pred_b, vfs, R)
-        r3 = execute(mh, vfs, R, with_battery=False)
-        leaked = _gdiff(R.G0, r3.gs[-1]) if r3.gs else []
+        mh = _minimise(hist, False, pred_b, vfs)
         mn = [NAMES[i] for i in mh]
         res.violation(
-            'C12.probe', _leak_sig(mn, leaked, first), {'history': mn}, {first: R.battery[first]}, {first: target},
-            note=f'probes differing from the pristine recording: {diff}; first seen after history {names}',
+            'C12.probe', _leak_sig(mn, _leaked_after(mh, vfs, R), first), {'history': mn}, {first: R.bat(env_after(mh))[first]}, {first: target},
+            note=f'probes differing from the recording of a clean process: {diff}; first seen after history {names}',
         )
     for name in MUST_RAISE:
-        if run.battery[name][0] != 'exc' and R.battery[name][0] == 'exc':
+        if run.battery[name][0] != 'exc':
             res.counters['must_raise_did_not'] += 1
     for name in MUST_RETURN:
         if run.battery[name][0] != 'ok':
             res.counters['must_return_did_not'] += 1
     # (iii) reuse
     res.clauses['C12.reuse'] += 1
-    rdiff = [k for k in R.reuse if run.reuse[k] != R.reuse[k]]
+    rdiff = [k for k in R.reu(env) if run.reuse[k] != R.reu(env)[k]]
     if rdiff:
         first = rdiff[0]
         target = run.reuse[first]
 
-        def pred_r(r2, n2):
-            return r2.reuse[first] == target
+        def pred_r(r2, h2):
+            return r2.reuse[first] == target and target != R.reu(env_after(h2))[first]
 
-        mh = _minimise(hist, False, pred_r, vfs, R)
-        r3 = execute(mh, vfs, R, with_battery=False)
-        leaked = _gdiff(R.G0, r3.gs[-1]) if r3.gs else []
+        mh = _minimise(hist, False, pred_r, vfs)
         mn = [NAMES[i] for i in mh]
         res.violation(
-            'C12.reuse', _leak_sig(mn, leaked, first), {'history': mn}, {first: R.reuse[first]}, {first: target},
-            note=f'reuse results differing from the pristine recording: {rdiff}; first seen after history {names}',
+            'C12.reuse', _leak_sig(mn, _leaked_after(mh, vfs, R), first), {'history': mn}, {first: R.reu(env_after(mh))[first]}, {first: target},
+            note=f'reuse results differing from the recording of a clean process: {rdiff}; first seen after history {names}',
         )
     if record_sample:
         res.sample({'history': names})
@@ -770,25 +879,28 @@ def judge(res, hist, vfs, R, record_sample=False):
 
 
 def _self_consistency(res, R):
-    """the pristine recordings themselves: reuse n=1..3 identical, must-raise raises, must-return returns"""
-    for kind in ('parseString', 'parseStyle'):
-        vals = [R.reuse[f'{kind}#{n}'] for n in range(1, REUSE_N + 1)]
-        res.clauses['C12.reuse.pristine'] += 1
-        for n, v in enumerate(vals[1:], 2):
-            if v != vals[0]:
-                res.violation('C12.reuse', f'pristine|{kind}|use#{n}-differs-from-use#1', {'history': []}, vals[0], v)
-    for name in MUST_RAISE:
-        if R.battery[name][0] != 'exc':
-            res.error(f'probe {name} does not raise in the pristine state: {R.battery[name]}')
-    for name in MUST_RETURN:
-        if R.battery[name][0] != 'ok':
-            res.error(f'probe {name} does not return in the pristine state: {R.battery[name]}')
+    """the recordings themselves: reuse n=1..3 identical, must-raise raises, must-return returns"""
+    for env in ENVS:
+        for kind in ('parseString', 'parseStyle'):
+            vals = [R.reu(env)[f'{kind}#{n}'] for n in range(1, REUSE_N + 1)]
+            res.clauses['C12.reuse.pristine'] += 1
+            for n, v in enumerate(vals[1:], 2):
+                if v != vals[0]:
+                    res.violation('C12.reuse', f'clean-process|{kind}|use#{n}-differs-from-use#1', {'history': [NAMES[i] for i in ENV_PREFIX[env]]}, vals[0], v)
+        for name in MUST_RAISE:
+            if R.bat(env)[name][0] != 'exc':
+                res.error(f'probe {name} does not raise in a clean process: {R.bat(env)[name]}')
+        for name in MUST_RETURN:
+            if R.bat(env)[name][0] != 'ok':
+                res.error(f'probe {name} does not return in a clean process: {R.bat(env)[name]}')
 
 
 # ----------------------------------------------------------------------------------------
 # framework interface
 
 DEPTH = {'quick': 2, 'thorough': 3}
+G_KEYS = ['MACROS', 'PRODUCTIONS', 'log.enabled', 'log.target', 'prefs', 'profile.default', 'profile.names', 'profile.object', 'profile.verdicts',
+          'pushed', 'raiseExceptions', 'savedTokens', 'ser', 'tokenizer_cache']
 
 
 def bounds(tier):
@@ -800,12 +912,13 @@ def bounds(tier):
         'depth': d,
         'histories': sum(n ** k for k in range(d + 1)),
         'faults': ['UnicodeDecodeError from byte input (parseString, parseStyle, parseFile, csscombine, long-lived parser)',
-                   'fetcher raising RuntimeError / OSError, returning None / empty / undecodable bytes', 'missing file',
+                   'fetcher raising RuntimeError, returning None / empty / undecodable bytes', 'missing file',
                    'DOM exceptions from a parser in raising mode', 'rejected DOM edits'],
-        'state_vector': sorted(gvec()),
+        'state_vector': G_KEYS,
+        'explicit_settings_environments': list(ENVS),
         'probe_battery': [p for p, _ in PROBES],
         'reuse_n': REUSE_N,
-        'merging': 'none: every history is executed in full from pristine(); G is used for reporting and the restore clause only',
+        'merging': 'none: every history is executed in full from pristine(), in its own forked process; G is used for reporting and the restore clause only',
     }
 
 
@@ -830,10 +943,7 @@ def plan(tier):
 def run_shard(shard, tier, seed):
     res = Result(seed)
     vfs = shard['vfs']
-    R = ref(vfs)
-    if shard.get('digest') is not None and R.digest != shard['digest']:
-        res.error('pristine recordings of this worker differ from the parent\'s (pristine() is not deterministic across processes)')
-        return res
+    R = load_ref(vfs)
     prefix = list(shard['prefix'])
     if not prefix and shard['self']:
         _self_consistency(res, R)
@@ -843,35 +953,36 @@ def run_shard(shard, tier, seed):
     return res
 
 
+def _compare_fresh(res, R):
+    """'pristine' really is pristine: a fresh interpreter gives the battery and reuse results of the recordings"""
+    try:
+        fresh = fresh_subprocess()
+    except Exception as e:
+        res.error(f'fresh-process comparison impossible: {e!r}'[:800])
+        return
+    res.clauses['C12.probe.fresh-process'] += 1
+    mine = json.loads(jdump({'battery': R.bat('default'), 'reuse': R.reu('default'), 'mode': R.g0()['raiseExceptions']}))
+    for part in ('battery', 'reuse'):
+        for k in mine[part]:
+            if mine[part][k] != fresh[part].get(k):
+                res.error(f'pristine() is not the fresh-process state: {part}[{k}] fresh={jdump(fresh[part].get(k))[:300]} pristine={jdump(mine[part][k])[:300]}')
+    if mine['mode'] != fresh['mode']:
+        res.error('error mode after pristine() differs from the error mode of a fresh process')
+    res.counters['fresh_process_probes_compared'] = len(mine['battery']) + len(mine['reuse'])
+
+
 def run(ctx):
     res = Result(ctx.seed)
     with vfs_dir() as vfs:
-        R = ref(vfs)
-        # "pristine" really is pristine: a fresh process gives the same battery and reuse results
-        try:
-            fresh = fresh_subprocess()
-        except Exception as e:
-            res.error(f'fresh-process comparison impossible: {e!r}'[:800])
-            fresh = None
-        if fresh is not None:
-            res.clauses['C12.probe.fresh-process'] += 1
-            mine = json.loads(jdump({'battery': R.battery, 'reuse': R.reuse, 'mode': R.G0['raiseExceptions']}))
-            for part in ('battery', 'reuse'):
-                for k in mine[part]:
-                    if mine[part][k] != fresh[part].get(k):
-                        res.error(f'pristine() is not the fresh-process state: {part}[{k}] fresh={jdump(fresh[part].get(k))[:300]} pristine={jdump(mine[part][k])[:300]}')
-            if mine['mode'] != fresh['mode']:
-                res.error('error mode after pristine() differs from the error mode of a fresh process')
-            res.counters['fresh_process_probes_compared'] = len(mine['battery']) + len(mine['reuse'])
+        R = Ref(vfs).fill()
+        save_ref(vfs, R)
+        _compare_fresh(res, R)
         shards = plan(ctx.tier)
         if ctx.only:
             shards = [s for s in shards if ctx.only in jdump([NAMES[i] for i in s['prefix']])]
-        import random
-
         random.Random(ctx.seed).shuffle(shards)
         for s in shards:
             s['vfs'] = vfs
-            s['digest'] = R.digest
         for r in ctx.map('run_shard', shards):
             res.merge(r)
     res.states = len(res.sets['G'])
@@ -886,10 +997,8 @@ def replay(case, tier, seed):
         res.error(f'symbol {e} of the recorded case is not in the alphabet any more')
         return res
     with vfs_dir() as vfs:
-        global _REF
-        _REF = None  # recordings contain no paths, but keep replay independent of earlier work in this process
-        R = ref(vfs)
-        if not hist:
+        R = Ref(vfs)
+        if hist == ENV_PREFIX[env_after(hist)]:
             _self_consistency(res, R)
         judge(res, hist, vfs, R)
     res.states = len(res.sets['G'])
